@@ -17,6 +17,7 @@ Record ext_facts := {
   x_arms : list (string * string);          (* (type url literal, constructor assigned) *)
   x_default : arm;
   x_no_ext : string;                        (* constructor used when the tx has no extension option *)
+  x_no_ext_height0 : string;                (* … and ctx.BlockHeight() = 0 (a gentx delivered from InitChain); = x_no_ext unless the code tells them apart *)
   x_returns_inside : bool                   (* `return anteHandler(ctx, tx, sim)` inside `if len(opts) > 0` *)
 }.
 
